@@ -111,7 +111,8 @@ KINDS = ["fresh", "copy-edit-copy", "copy-edit-orig", "ccopy-edit-copy", "ccopy-
 def derived_handle(line):
     try:
         _, a, b = line.split(" ")
-        P, Q = build_operand(a), build_operand(b)
+        P = build_operand(a)
+        Q = P if b == "=" else build_operand(b)       # "=": the very same OBJECT on both sides
         return f"p={pstr(P)} q={pstr(Q)} " + impl_ps.pair_of(P, Q) + " mat=" + ("ok" if (len(P) > 4 or np.allclose(P.get_matrix(), dense(str(P)))) else "differs")
     except Exception as e:
         return exc_name(e)
@@ -211,6 +212,8 @@ def build_streams(rng, tier):
         toks = []
         for _t in range(2):
             toks.append(f"{rand_str(rng, n)}~{rng.choice(KINDS)}~{rng.randrange(n)}~{rng.choice('IXYZ')}")
+        if rng.random() < 0.12:
+            toks[1] = "="
         der.append("dpair " + " ".join(toks))
     h = impl_ps.handle
     nt = lambda l, o: "I" in l or "X" in l
@@ -218,7 +221,7 @@ def build_streams(rng, tier):
         Stream("right-operand-as-str", sop, str_operand_handle, oracle_str_operand, model=False,
                tag=lambda l, o: "str:" + ("ValueError" if "!ValueError" in o else "answered")),
         Stream("pairs-of-derived-operands", der, derived_handle, oracle_derived, model=False,
-               tag=lambda l, o: "kinds:" + "+".join(sorted(t.split("~")[1] for t in l.split(" ")[1:]))[:0] + ("err" if o.startswith("!") else "ok")),
+               tag=lambda l, o: "kinds:" + ("same-object:" if l.endswith(" =") else "") + ("err" if o.startswith("!") else "ok")),
         Stream("corpus", corpus_lines(PID), h, lambda l, o: (oracle_pair if l.startswith("pair") else oracle_mat)(l, o)),
         Stream("pairs-exhaustive-n<=3", ex, h, oracle_pair, nontrivial=nt, tag=lambda l, o: "comm=" + o.split("comm=")[1][:1]),
         Stream("pairs-random", rnd, h, oracle_pair, nontrivial=nt, tag=lambda l, o: "sign=" + o.split(" ")[0][5:]),
